@@ -262,7 +262,9 @@ def write_syn_models(isa, dirpath, rnd, fwd):
                                 **({"pre_indexed": "*", "post_indexed": "*"} if isa == "aarch64" else {}),
                                 **({"source": s, "destination": d} if s is not None else {})}
     I = lambda s=None, d=None: {"class": "immediate", "imd": "int", **({"source": s, "destination": d} if s is not None else {})}
-    lat = lambda: rnd.choice([0.0, 1.0, 2.0, 4.0])
+    # latencies written as integers too (`latency: 2`), as most shipped entries are: the YAML loader hands those out
+    # as its own integer type, and a fractional forwarding latency has to survive being added to one
+    lat = lambda: rnd.choice([0.0, 1.0, 2.0, 4.0, 0, 1, 3, 1.5])
     forms, isaforms = [], []
 
     def add(name, arch_ops, isa_ops=None, operation=None):
